@@ -112,3 +112,19 @@ def guard_blocks(fn, cond_pred, branch=0):
         if all(p == b for p in preds[s]):
             res.add(s)
     return res
+
+
+def branch_edges(fn, cond_pred, branch):
+    """CFG edges (from, to) that are the `branch`-th successor (0 = true,
+    1 = false) of a two-way branch whose condition satisfies cond_pred."""
+    res = set()
+    for b, blk in fn.blocks.items():
+        t = blk.get("term")
+        if not t or "cond" not in t or t["k"] not in ("if", "cond", "while", "for", "do"):
+            continue
+        if not cond_pred(t["cond"]):
+            continue
+        succ = blk["succ"]
+        if len(succ) > branch and succ[branch] >= 0:
+            res.add((b, succ[branch]))
+    return res
